@@ -213,6 +213,9 @@ def replay_rejected_api(p):
     if which >= 7:
         # a channel of the same name added afterwards WITHOUT data: the write must fail for want of its data set
         z = lf.add_channel('Z')
+        if z.copy_number != 0 or z.dataset_name != 'Z':
+            return _res(f'a channel Z added after the rejected add_channel(Z, data=..., <invalid argument>) gets copy number '
+                        f'{z.copy_number}, data set name {z.dataset_name!r}', {'which': which})
         lf.add_frame('F2', channels=(z,))
         try:
             data = _write(df)
